@@ -280,6 +280,11 @@ func (e *env) request(world *World, docBytes []byte, q ReqSpec, again bool) (han
 	}()
 
 	// ---- the simulated history ---------------------------------------------
+	zzsimrt.ResetMapOrder(s.MapSeed) // map iteration order inside the library is the simulator's choice
+	defer zzsimrt.ResetMapOrder(0)
+	if s.MapSeed != 0 {
+		res.Probe("map-order-permuted")
+	}
 	e.party = "client"
 	req := baseRequest(q, "POST")
 	var st *simenv.Stream
@@ -793,6 +798,8 @@ func (e *env) response(world *World, docBytes []byte, p RespSpec, again bool) (r
 		nverr = openapi3filter.ValidateResponse(context.Background(), nin)
 	}()
 
+	zzsimrt.ResetMapOrder(s.MapSeed)
+	defer zzsimrt.ResetMapOrder(0)
 	e.party = "validator"
 	st := simenv.NewStream("respbody", orig, p.Chunk, log, &e.party)
 	in, err := mkInput(world, st)
